@@ -57,6 +57,84 @@ def mutants_of(tree):
                             yield ("delete `%s`" % ast.unparse(st)[:50].replace("\n", " "), st.lineno, ("delete", idx, field, j))
 
 
+SIBLINGS = [("local_id", "remote_id"), ("transport_timeout_s", "read_timeout_s"), ("_reader", "_writer"), ("send_buffer", "recv_buffer"), ("_read_endpoint", "_write_endpoint"),
+            ("arg0", "arg1"), ("data_length", "data_checksum"), ("_transport_lock", "_store_lock"), ("send_idx", "recv_message_size"), ("_default_transport_timeout_s", "_maxdata")]
+_SIB = {}
+for _a, _b in SIBLINGS:
+    _SIB[_a] = _b
+    _SIB[_b] = _a
+
+
+def mutants2_of(tree):
+    """Second operator set (structure-level): sibling-name swaps, unwrapped `with`, dropped `finally`, swapped neighbouring statements, deleted
+    return / raise / guard statements, off-by-one slice bounds, a call argument replaced by None."""
+    nodes = list(ast.walk(tree))
+    for idx, n in enumerate(nodes):
+        if isinstance(n, ast.Attribute) and n.attr in _SIB and isinstance(n.ctx, ast.Load):
+            yield ("attr .%s->.%s" % (n.attr, _SIB[n.attr]), n.lineno, ("attr", idx, _SIB[n.attr]))
+        if isinstance(n, ast.Name) and n.id in _SIB and isinstance(n.ctx, ast.Load):
+            yield ("name %s->%s" % (n.id, _SIB[n.id]), n.lineno, ("name", idx, _SIB[n.id]))
+        if isinstance(n, (ast.With, ast.AsyncWith)):
+            yield ("unwrap `with %s`" % ast.unparse(n.items[0].context_expr)[:40], n.lineno, ("unwrap", idx))
+        if isinstance(n, ast.Try) and n.finalbody:
+            yield ("drop finally", n.lineno, ("nofinally", idx))
+        if isinstance(n, ast.Try) and n.handlers:
+            yield ("drop handlers", n.lineno, ("nohandlers", idx))
+        if isinstance(n, ast.Slice):
+            for fld in ("lower", "upper"):
+                if getattr(n, fld) is not None:
+                    yield ("slice %s+1" % fld, getattr(n, fld).lineno, ("slice", idx, fld))
+        if isinstance(n, ast.Call) and n.args and not any(isinstance(a, ast.Starred) for a in n.args) and hasattr(n, "lineno"):
+            for i, a in enumerate(n.args):
+                if not isinstance(a, ast.Constant):
+                    yield ("arg %d of %s -> None" % (i, ast.unparse(n.func)[:30]), n.lineno, ("argnone", idx, i))
+        if isinstance(n, (ast.FunctionDef, ast.AsyncFunctionDef, ast.If, ast.While, ast.For, ast.AsyncFor, ast.With, ast.AsyncWith, ast.Try, ast.ExceptHandler)):
+            for field in ("body", "orelse", "finalbody"):
+                body = getattr(n, field, None)
+                if not isinstance(body, list):
+                    continue
+                for j, st in enumerate(body):
+                    if isinstance(st, (ast.Return, ast.Raise)) or (isinstance(st, ast.If) and not st.orelse):
+                        yield ("delete `%s`" % ast.unparse(st)[:50].replace("\n", " "), st.lineno, ("delete", idx, field, j))
+                    if j + 1 < len(body) and isinstance(st, (ast.Expr, ast.Assign, ast.AugAssign)) and isinstance(body[j + 1], (ast.Expr, ast.Assign, ast.AugAssign)) \
+                            and not (isinstance(st, ast.Expr) and isinstance(st.value, ast.Constant)):
+                        yield ("swap stmts `%s` <-> next" % ast.unparse(st)[:40].replace("\n", " "), st.lineno, ("swapstmt", idx, field, j))
+
+
+EXC = ["AdbCommandFailureException", "AdbConnectionError", "AdbTimeoutError", "DeviceAuthError", "DevicePathInvalidError", "InvalidChecksumError", "InvalidCommandError",
+       "InvalidResponseError", "InvalidTransportError", "PushFailedError", "TcpTimeoutException", "UsbDeviceNotFoundError", "UsbReadFailedError", "UsbWriteFailedError"]
+METHOD_SIBS = [("find", "find_allow_zeros"), ("_okay", "_clse"), ("bulk_read", "bulk_write"), ("put", "get"), ("clear", "clear_all"), ("_read_until", "_read_until_close"),
+               ("_filesync_read", "_filesync_read_buffered"), ("acquire", "release"), ("append", "extend"), ("sendall", "send"), ("read", "readexactly")]
+_MS = {}
+for _a, _b in METHOD_SIBS:
+    _MS[_a] = _b
+    _MS[_b] = _a
+
+
+def mutants3_of(tree):
+    """Third operator set: a test forced to True / False, an exception class replaced by another of the package, a call redirected to a sibling method,
+    a loop cut to one iteration, `except T` widened to a bare handler or narrowed to one that never matches."""
+    nodes = list(ast.walk(tree))
+    for idx, n in enumerate(nodes):
+        if isinstance(n, (ast.If, ast.While, ast.IfExp)) and not isinstance(n.test, ast.Constant):
+            for v in (True, False):
+                yield ("test `%s` -> %s" % (ast.unparse(n.test)[:40], v), n.lineno, ("forcetest", idx, v))
+        if isinstance(n, ast.Attribute) and n.attr in EXC and isinstance(n.ctx, ast.Load):
+            i = EXC.index(n.attr)
+            for other in (EXC[(i + 1) % len(EXC)], EXC[(i + 5) % len(EXC)]):
+                yield ("exception %s->%s" % (n.attr, other), n.lineno, ("attr", idx, other))
+        if isinstance(n, ast.Name) and n.id in EXC and isinstance(n.ctx, ast.Load):
+            i = EXC.index(n.id)
+            yield ("exception %s->%s" % (n.id, EXC[(i + 1) % len(EXC)]), n.lineno, ("name", idx, EXC[(i + 1) % len(EXC)]))
+        if isinstance(n, ast.Call) and isinstance(n.func, ast.Attribute) and n.func.attr in _MS:
+            yield ("call .%s -> .%s" % (n.func.attr, _MS[n.func.attr]), n.lineno, ("callattr", idx, _MS[n.func.attr]))
+        if isinstance(n, (ast.While, ast.For, ast.AsyncFor)):
+            yield ("loop runs once", n.lineno, ("onceloop", idx))
+        if isinstance(n, ast.ExceptHandler) and n.type is not None:
+            yield ("except %s -> bare" % ast.unparse(n.type)[:30], n.lineno, ("barehandler", idx))
+            yield ("except %s -> never" % ast.unparse(n.type)[:30], n.lineno, ("neverhandler", idx))
+
+
 def apply(tree, op):
     t = copy.deepcopy(tree)
     nodes = list(ast.walk(t))
@@ -84,8 +162,55 @@ def apply(tree, op):
     elif kind == "delete":
         body = getattr(n, op[2])
         body[op[3]] = ast.Pass()
+    elif kind == "name":
+        n.id = op[2]
+    elif kind == "forcetest":
+        n.test = ast.Constant(value=op[2])
+    elif kind == "callattr":
+        n.func.attr = op[2]
+    elif kind == "onceloop":
+        n.body.append(ast.Break())
+    elif kind == "barehandler":
+        n.type = None
+        n.name = None if not any(isinstance(x, ast.Name) and x.id == n.name for st in n.body for x in ast.walk(st)) else n.name
+        if n.name is not None:
+            n.type = ast.Name(id="BaseException", ctx=ast.Load())
+    elif kind == "neverhandler":
+        n.type = ast.Name(id="StopAsyncIteration", ctx=ast.Load())
+    elif kind == "unwrap":
+        parent_splice(t, n, n.body)
+    elif kind == "nofinally":
+        if n.handlers:
+            n.finalbody = []
+        else:
+            parent_splice(t, n, n.body)
+    elif kind == "nohandlers":
+        if n.finalbody:
+            n.handlers = []
+            n.orelse = []
+        else:
+            parent_splice(t, n, n.body + n.orelse)
+    elif kind == "slice":
+        old = getattr(n, op[2])
+        setattr(n, op[2], ast.BinOp(left=old, op=ast.Add(), right=ast.Constant(value=1)))
+    elif kind == "argnone":
+        n.args[op[2]] = ast.Constant(value=None)
+    elif kind == "swapstmt":
+        body = getattr(n, op[2])
+        j = op[3]
+        body[j], body[j + 1] = body[j + 1], body[j]
     ast.fix_missing_locations(t)
     return t
+
+
+def parent_splice(tree, old, new_stmts):
+    for p in ast.walk(tree):
+        for field, val in ast.iter_fields(p):
+            if isinstance(val, list):
+                for i, x in enumerate(val):
+                    if x is old:
+                        val[i:i + 1] = new_stmts
+                        return
 
 
 def parent_replace(tree, old, new):
